@@ -13,7 +13,7 @@ from concurrent.futures import ThreadPoolExecutor
 
 VERIF = os.path.dirname(os.path.dirname(os.path.abspath(__file__)))
 REPO = os.environ.get('VERIF_REPO', '/repo')
-OUT = os.path.join(VERIF, 'out')
+OUT = os.environ.get('VERIF_OUT') or os.path.join(VERIF, 'out')     # self-tests relocate the scratch area
 SPEC = os.path.join(VERIF, 'spec')
 HARNESS = os.path.join(VERIF, 'harness')
 GUARD = 'ASAM_CMP_VERIF'
@@ -368,7 +368,7 @@ def known_findings():
 def write_evidence(pid, tier, seed, level, coverage, assumptions, wall_s, violations):
     ev = {'property_id': pid, 'tier': tier, 'seed': seed, 'level': level, 'coverage': coverage,
           'assumptions': assumptions, 'wall_s': round(wall_s, 1), 'violations': violations}
-    d = os.path.join(VERIF, 'evidence')
+    d = os.path.join(OUT, 'evidence') if os.environ.get('VERIF_OUT') else os.path.join(VERIF, 'evidence')
     os.makedirs(d, exist_ok=True)
     with open(os.path.join(d, pid + '.json'), 'w') as f:
         json.dump(ev, f, indent=1, sort_keys=True)
